@@ -2,6 +2,7 @@ package transports
 
 import (
 	"sync/atomic"
+	"time"
 
 	"github.com/zishang520/engine.io-go-parser/packet"
 	"github.com/zishang520/engine.io-go-parser/parser"
@@ -12,6 +13,10 @@ import (
 )
 
 var transport_log = log.NewLog("engine:transport")
+
+// how long a websocket/webtransport connection may stay open after a graceful close
+// while accepted packets are still being written
+const closeTimeout = 30 * time.Second
 
 type transport struct {
 	events.EventEmitter
